@@ -25,7 +25,7 @@ from pydrobert.speech import util as _util
 PROPERTY = "C13"
 LEVEL = "exploration"
 TIERS = {
-    "quick": {"runs": 24000, "budget": 80, "selftest": 32, "shrink_budget": 300},
+    "quick": {"runs": 90000, "budget": 70, "selftest": 64, "shrink_budget": 300},
     "thorough": {"runs": 500000, "budget": 1500, "selftest": 2000, "shrink_budget": 800},
 }
 VECTORS = ["123_1pcbe", "123_1pcle", "123_1ulaw", "123_2pcbe", "123_2pcle", "123_2ulaw"]
